@@ -102,7 +102,7 @@ def shard_events(ev_path, nshards, workdir):
     for k, (a, b) in enumerate(shards):
         if a == b:
             continue
-        p = os.path.join(workdir, "shard%02d.ndjson" % k)
+        p = os.path.join(workdir, "shard_%d_%s_%02d.ndjson" % (os.getpid(), os.path.basename(ev_path).split(".")[0], k))
         with open(p, "w") as f:
             f.writelines(lines[a:b])
         paths.append((p, b - a))
